@@ -9,6 +9,8 @@
 
 #include <rapidcheck.h>
 
+#include <fcntl.h>
+#include <signal.h>
 #include <sys/types.h>
 #include <sys/wait.h>
 #include <unistd.h>
@@ -456,6 +458,51 @@ struct Stats
 };
 
 // ---------------------------------------------------------------------------------------------------
+// Crash capture: sanitizer aborts bypass rapidcheck's shrinking and atexit, so the serialized current case is kept
+// in a global and written to <faildir>/<id>-crash.case from the sanitizer death callback / SIGABRT handler.
+// ---------------------------------------------------------------------------------------------------
+extern "C" void __sanitizer_set_death_callback(void (*callback)(void)) __attribute__((weak));
+
+inline std::string& currentCaseText()
+{
+    static std::string s;
+    return s;
+}
+inline std::string& crashPath()
+{
+    static std::string s;
+    return s;
+}
+inline void writeCrashCase()
+{
+    const std::string& path = crashPath();
+    if (path.empty())
+        return;
+    int fd = open(path.c_str(), O_WRONLY | O_CREAT | O_TRUNC, 0644);
+    if (fd < 0)
+        return;
+    const std::string& text = currentCaseText();
+    const char* head = "# crashed while running this case\n";
+    ssize_t r = write(fd, head, strlen(head));
+    r = write(fd, text.data(), text.size());
+    (void) r;
+    close(fd);
+}
+inline void abortHandler(int sig)
+{
+    writeCrashCase();
+    signal(sig, SIG_DFL);
+    raise(sig);
+}
+inline void installCrashCapture(const std::string& failDir, const std::string& id)
+{
+    crashPath() = failDir + "/" + id + "-crash.case";
+    if (__sanitizer_set_death_callback)
+        __sanitizer_set_death_callback(writeCrashCase);
+    signal(SIGABRT, abortHandler);
+}
+
+// ---------------------------------------------------------------------------------------------------
 // Property definition and main loop
 // ---------------------------------------------------------------------------------------------------
 template <class Case>
@@ -577,6 +624,7 @@ int pbtMain(int argc, char** argv, const Property<Case>& prop)
 {
     Options opt = parseOptions(argc, argv);
     Stats stats;
+    installCrashCapture(opt.failDir, prop.id);
 
     if (opt.mode == "replay")
     {
@@ -599,8 +647,9 @@ int pbtMain(int argc, char** argv, const Property<Case>& prop)
                 return 2;
             }
             Info info;
+            currentCaseText() = serialize(c);
             Verdict v = execute(prop, c, info, opt.fork);
-            stats.record(serialize(c), info);
+            stats.record(currentCaseText(), info);
             if (v.ok)
                 printf("REPLAY-PASS %s\n", file.c_str());
             else
@@ -626,8 +675,9 @@ int pbtMain(int argc, char** argv, const Property<Case>& prop)
         std::string failPath, why;
         prop.enumerate(opt.tier, [&](const Case& c) -> bool {
             Info info;
+            currentCaseText() = serialize(c);
             Verdict v = execute(prop, c, info, opt.fork);
-            std::string s = serialize(c);
+            const std::string& s = currentCaseText();
             stats.record(s, info);
             if (!v.ok)
             {
@@ -660,16 +710,17 @@ int pbtMain(int argc, char** argv, const Property<Case>& prop)
     bool ok = rc::check(prop.id, [&]() {
         Case c = *gen;
         Info info;
+        currentCaseText() = serialize(c);
         Verdict v = execute(prop, c, info, opt.fork);
         if (!v.ok)
         {
-            lastFailSerialized = serialize(c);
+            lastFailSerialized = currentCaseText();
             lastFailWhy = v.why;
             haveFail = true;
             RC_FAIL(v.why);
         }
         if (!haveFail)
-            stats.record(serialize(c), info);
+            stats.record(currentCaseText(), info);
     });
     std::string failPath;
     if (!ok && haveFail)
